@@ -66,6 +66,7 @@ fn leaf_future(ctx: &Ctx, env: &mut Env, leaf: &Leaf) -> BoxFuture<'static, u32>
             futures::future::poll_fn(move |cx| st.lock().unwrap().poll_next_unpin(cx).map(|o| o.unwrap_or(0))).boxed()
         }
         Leaf::Joinh { .. } => panic!("join handles do not exist in the capability API"),
+        Leaf::Recv { .. } => panic!("channels are not part of the legacy family"),
     }
 }
 
@@ -151,6 +152,9 @@ fn run_script(ctx: Ctx, code: Arc<Vec<Instr>>, mut env: Env) -> BoxFuture<'stati
                 Instr::Yield => {
                     YieldOnce(false).await;
                     pc += 1;
+                }
+                Instr::Chan { .. } | Instr::Send { .. } | Instr::Closec { .. } | Instr::Recv { .. } => {
+                    panic!("channels are not part of the legacy family")
                 }
             }
         }
